@@ -122,7 +122,32 @@ func C16(ctx *core.Ctx) {
 			if !isIA || ssax.Strip(ia.X) != ssa.Value(mwParam) {
 				continue
 			}
-			// idx = φidx + 1, φidx = φ(-1, idx), guard idx < len(middleware)
+			// index loop: i = φ(0, i+1), guard i < len(middleware)
+			if ip2, isP := ia.Index.(*ssa.Phi); isP {
+				zero, inc := false, false
+				for _, e := range ip2.Edges {
+					if k, isK := ssax.ConstInt(e); isK && k == 0 {
+						zero = true
+					} else if a2, isA := e.(*ssa.BinOp); isA && a2.Op == token.ADD && a2.X == ssa.Value(ip2) {
+						if o, isO := ssax.ConstInt(a2.Y); isO && o == 1 {
+							inc = true
+						}
+					}
+				}
+				guard := false
+				for _, u := range *ip2.Referrers() {
+					if bo, isB := u.(*ssa.BinOp); isB && bo.Op == token.LSS && bo.X == ssa.Value(ip2) {
+						if lc, isL := CallValue(bo.Y); isL && lc.FullName() == "builtin.len" && ssax.Strip(lc.Common.Args[0]) == ssa.Value(mwParam) {
+							guard = true
+						}
+					}
+				}
+				if zero && inc && guard {
+					ok = true
+				}
+				continue
+			}
+			// range loop: idx = φidx + 1, φidx = φ(-1, idx), guard idx < len(middleware)
 			add, isAdd := ia.Index.(*ssa.BinOp)
 			if !isAdd || add.Op != token.ADD {
 				continue
